@@ -343,7 +343,7 @@ class C13(Check):
                    "the brand-new Project (and a fresh AutoImport index filled with update_resource over a copy of the tree) is the reference",
                    "AutoImport.generate_cache's process pool is not used; indexes are filled with update_resource"]
     chunksize = 1
-    budget_quick = 200
+    budget_quick = 450
 
     def bound_text(self, tier):
         return "depth 3 over 31 events" if tier == "quick" else "depth 3 over 31 events; depth 5 over a 15-event sub-alphabet"
